@@ -5,6 +5,7 @@ package main
 // UNSUPPORTED — never as success.
 
 import (
+	"fmt"
 	"go/types"
 
 	"golang.org/x/tools/go/ssa"
@@ -27,9 +28,14 @@ func (ex *Exec) chanRecv(c *ctx, x *ssa.UnOp, work *[]*ctx, outs *[]Outcome) boo
 	case len(cd.buf) > 0:
 		v = cd.buf[0]
 		cd.buf = append([]Value(nil), cd.buf[1:]...)
+		if len(cd.rel) > 0 {
+			c.st.hbAcquire(cd.rel[0])
+			cd.rel = append([]int(nil), cd.rel[1:]...)
+		}
 		o.val = &cd
 	case cd.closed:
 		v, ok = ex.zero(elem), false
+		c.st.hbAcquire(cd.closedRel)
 	default:
 		if c.st.script.set {
 			ex.deadlock(c.st, x, "receive blocks forever: the channel is empty, still open, and its producer has finished")
@@ -61,6 +67,7 @@ func (ex *Exec) chanSend(c *ctx, x *ssa.Send, work *[]*ctx, outs *[]Outcome) boo
 		unsup("send on a full channel would block (goroutine schedules are outside the executor)")
 	}
 	cd.buf = append(append([]Value(nil), cd.buf...), ex.val(c, x.X))
+	cd.rel = append(append([]int(nil), cd.rel...), c.st.hbRelease())
 	o.val = &cd
 	c.pc++
 	return true
@@ -210,7 +217,13 @@ func (ex *Exec) selectStmt(c *ctx, x *ssa.Select, work *[]*ctx, outs *[]Outcome)
 			if len(cd.buf) > 0 {
 				v, ok = cd.buf[0], true
 				cd.buf = append([]Value(nil), cd.buf[1:]...)
+				if len(cd.rel) > 0 {
+					ci.st.hbAcquire(cd.rel[0])
+					cd.rel = append([]int(nil), cd.rel[1:]...)
+				}
 				o.val = &cd
+			} else if cd.closed {
+				ci.st.hbAcquire(cd.closedRel)
 			}
 			ex.set(ci, x, mkResult(ci.st, i, ok, ri, v))
 		} else {
@@ -225,6 +238,7 @@ func (ex *Exec) selectStmt(c *ctx, x *ssa.Select, work *[]*ctx, outs *[]Outcome)
 				ci.st.script.budget--
 			}
 			cd.buf = append(append([]Value(nil), cd.buf...), ex.val(ci, s.Send))
+			cd.rel = append(append([]int(nil), cd.rel...), ci.st.hbRelease())
 			o.val = &cd
 			ex.set(ci, x, mkResult(ci.st, i, false, -1, nil))
 		}
@@ -240,6 +254,10 @@ func (ex *Exec) goStmt(c *ctx, x *ssa.Go, fv FuncV, args []Value, work *[]*ctx, 
 		unsup("go statement without a consumer script (verifConsumerScript): goroutine schedules are only encoded for the sequentialised producer/consumer pattern")
 	}
 	ex.assumes["goroutines are sequentialised: the producer started by `go` runs to completion under the harness's consumer script (receive budget, then cancel); only single-consumer rendezvous patterns are covered"] = true
+	if c.st.hb != nil {
+		unsup("second go statement on one path: the happens-before bookkeeping covers one producer goroutine")
+	}
+	c.st.hb = &hbState{tok: c.st.tok, inProd: true, acc: map[int]map[string]hbAcc{}, wgRel: map[int]int{}}
 	res := ex.callFunc(c.st, fv, args, nil)
 	for i, o := range res {
 		ci := c
@@ -247,6 +265,7 @@ func (ex *Exec) goStmt(c *ctx, x *ssa.Go, fv FuncV, args []Value, work *[]*ctx, 
 			ci = c.clone()
 		}
 		ci.st = o.st
+		ci.st.hbMut().inProd = false
 		if o.pan != nil {
 			ex.obligations++
 			ex.recordViolation(o.st, "panic", ex.pos(x), c.fn.String(), "panic in goroutine: "+o.pan.msg)
@@ -256,4 +275,197 @@ func (ex *Exec) goStmt(c *ctx, x *ssa.Go, fv FuncV, args []Value, work *[]*ctx, 
 		*work = append(*work, ci)
 	}
 	return false
+}
+
+// ---- happens-before check on top of the sequentialisation ------------------
+//
+// Running the producer to completion at the `go` statement hides one class of
+// schedule-dependent behaviour: memory the two sides share *outside* the
+// channel (the driver's rows.err). The executor therefore keeps Lamport-style
+// bookkeeping for the single producer / single consumer pair:
+//   * the producer's release events are numbered 1, 2, … in program order:
+//     every send, close(ch), WaitGroup.Done, cancel();
+//   * every load/store the producer performs is recorded with the number of
+//     release events already performed (its epoch e): the access
+//     happens-before release #e+1 and every later one;
+//   * the consumer acquires release #i by receiving the value sent by it, by
+//     seeing the close it stands for, or by returning from the Wait its Done
+//     feeds;
+//   * a consumer load of a location the producer stored to (or a consumer store
+//     to one the producer loaded or stored) needs acquired ≥ e+1 — otherwise
+//     the two accesses are unordered in some schedule: a `race` finding, which
+//     is confirmed natively by replaying the harness under `go test -race`.
+// Only ordering from the producer to the consumer is tracked; an edge from the
+// consumer's cancel() to the producer is ignored, which can only add findings
+// (they would then fail native confirmation and surface as INCONCLUSIVE).
+// Covered accesses: ssa loads and stores (field, element, pointer); bulk
+// copy/append traffic is not recorded.
+
+type hbAcc struct {
+	path  []PE
+	write bool
+	epoch int
+	site  string
+}
+
+type hbState struct {
+	tok     *ownerTok
+	inProd  bool
+	prodRel int
+	consAcq int
+	acc     map[int]map[string]hbAcc
+	wgRel   map[int]int
+}
+
+func (st *State) hbMut() *hbState {
+	h := st.hb
+	if h.tok == st.tok {
+		return h
+	}
+	n := &hbState{tok: st.tok, inProd: h.inProd, prodRel: h.prodRel, consAcq: h.consAcq}
+	n.acc = make(map[int]map[string]hbAcc, len(h.acc))
+	for k, m := range h.acc {
+		nm := make(map[string]hbAcc, len(m))
+		for kk, a := range m {
+			nm[kk] = a
+		}
+		n.acc[k] = nm
+	}
+	n.wgRel = make(map[int]int, len(h.wgRel))
+	for k, v := range h.wgRel {
+		n.wgRel[k] = v
+	}
+	st.hb = n
+	return n
+}
+
+// hbRelease numbers a release event of the producer (0 when the caller is not
+// the producer).
+func (st *State) hbRelease() int {
+	if st.hb == nil || !st.hb.inProd {
+		return 0
+	}
+	h := st.hbMut()
+	h.prodRel++
+	return h.prodRel
+}
+
+func (st *State) hbAcquire(rel int) {
+	if st.hb == nil || st.hb.inProd || rel <= st.hb.consAcq {
+		return
+	}
+	st.hbMut().consAcq = rel
+}
+
+func hbPathKey(path []PE) string {
+	var b []byte
+	for _, pe := range path {
+		if pe.idx == nil {
+			b = append(b, '.')
+			b = strconvAppendInt(b, pe.field)
+		} else if pe.idx.IsConst() {
+			b = append(b, '[')
+			b = strconvAppendInt(b, int(pe.idx.c))
+		} else {
+			b = append(b, '[', '*')
+		}
+	}
+	return string(b)
+}
+
+func strconvAppendInt(b []byte, n int) []byte {
+	if n < 0 {
+		b = append(b, '-')
+		n = -n
+	}
+	var t [20]byte
+	i := len(t)
+	for {
+		i--
+		t[i] = byte('0' + n%10)
+		n /= 10
+		if n == 0 {
+			break
+		}
+	}
+	return append(b, t[i:]...)
+}
+
+// hbOverlap: one path is a prefix of the other (symbolic indexes overlap with
+// everything).
+func hbOverlap(a, b []PE) bool {
+	n := len(a)
+	if len(b) < n {
+		n = len(b)
+	}
+	for i := 0; i < n; i++ {
+		x, y := a[i], b[i]
+		if (x.idx == nil) != (y.idx == nil) {
+			return true // different views of the same storage: be conservative
+		}
+		if x.idx == nil {
+			if x.field != y.field {
+				return false
+			}
+			continue
+		}
+		if x.idx.IsConst() && y.idx.IsConst() && x.idx.c != y.idx.c {
+			return false
+		}
+	}
+	return true
+}
+
+func (ex *Exec) hbAccess(st *State, p Ptr, write bool) {
+	h := st.hb
+	if h.inProd {
+		key := hbPathKey(p.path)
+		if write {
+			key += "w"
+		}
+		if m := h.acc[p.obj]; m != nil {
+			if a, ok := m[key]; ok && a.epoch == h.prodRel {
+				return
+			}
+		}
+		h = st.hbMut()
+		m := h.acc[p.obj]
+		if m == nil {
+			m = map[string]hbAcc{}
+			h.acc[p.obj] = m
+		}
+		site := ""
+		if ex.cur != nil {
+			site = ex.pos(ex.cur)
+		}
+		m[key] = hbAcc{path: append([]PE(nil), p.path...), write: write, epoch: h.prodRel, site: site}
+		return
+	}
+	m := h.acc[p.obj]
+	if m == nil {
+		return
+	}
+	for _, a := range m {
+		if !a.write && !write {
+			continue
+		}
+		if h.consAcq > a.epoch || !hbOverlap(a.path, p.path) {
+			continue
+		}
+		site, fn := "race", ""
+		if ex.cur != nil {
+			site, fn = ex.pos(ex.cur), ex.cur.Parent().String()
+		}
+		what := "load"
+		if write {
+			what = "store"
+		}
+		pw := "load"
+		if a.write {
+			pw = "store"
+		}
+		ex.obligations++
+		ex.recordViolation(st, "race", site, fn, fmt.Sprintf("data race: this %s is not ordered after the goroutine's %s to the same location at %s (the goroutine publishes it with its release event #%d; the caller has synchronised only up to #%d)", what, pw, a.site, a.epoch+1, h.consAcq))
+		return
+	}
 }
